@@ -270,3 +270,8 @@ def build_ah(config="o1", labels=None):
 def build_ioh(config="o1"):
     """The file-codec harness (harness/io_main.cpp)."""
     return build_program("ioh", config, [(os.path.join(HARNESS, "io_main.cpp"), [], "main")])
+
+
+def build_ch(config="tsan"):
+    """The concurrent-readers harness (harness/conc_main.cpp)."""
+    return build_program("ch", config, [(os.path.join(HARNESS, "conc_main.cpp"), [], "main")])
